@@ -205,6 +205,10 @@ def mlr(args, stdin=b"", binary="mlr-verif", cwd=None, env=None, cpu_s=20, watch
                 r.verdict = "cpu"
             elif r.signal == signal.SIGXFSZ:
                 r.verdict = "output-cap"
+            elif r.signal == signal.SIGKILL and wrapper is None and "MLR_VERIF_CRASH" not in e:
+                # the harness kills only after a deadlock/slow verdict; the Go runtime survives SIGXCPU at the soft
+                # limit, so a SIGKILL here is the kernel enforcing the hard RLIMIT_CPU
+                r.verdict = "cpu"
     else:
         r.rc = rc
     # mlr does not wait for its pipe-to children; give them a bounded chance to finish reading what
